@@ -175,7 +175,8 @@ func encodeValue(w *Writer, t *Type, ver int16, flexible, nullable bool, v any, 
 			}
 			sp = &s
 		} else if !nullable {
-			return fmt.Errorf("null string in non-nullable field")
+			e := "" // a missing value is the default
+			sp = &e
 		}
 		if flexible {
 			w.CompactString(sp)
@@ -188,7 +189,7 @@ func encodeValue(w *Writer, t *Type, ver int16, flexible, nullable bool, v any, 
 		if !isNull {
 			b = v.([]byte)
 		} else if !nullable {
-			return fmt.Errorf("null bytes in non-nullable field")
+			isNull = false // a missing value is the default (empty)
 		}
 		if flexible {
 			w.CompactBytes(b, isNull)
@@ -198,7 +199,13 @@ func encodeValue(w *Writer, t *Type, ver int16, flexible, nullable bool, v any, 
 	case KArray:
 		if v == nil {
 			if !nullable {
-				return fmt.Errorf("null array in non-nullable field")
+				// a missing value is the default (empty)
+				if flexible {
+					w.lenUvarint("compact_array", 1)
+				} else {
+					w.lenFixed32("array", 0)
+				}
+				return nil
 			}
 			if flexible {
 				w.lenUvarint("compact_array", 0)
